@@ -197,14 +197,24 @@ def shard(idx, n, seed, tier, params):
                 if not prep.get("result"):
                     acc.count("rename-not-offered.%s" % d.kind)
                     continue
+                # a client may ask for the same rename more than once before applying it (a preview that is cancelled and repeated):
+                # the answer that is judged below is then the second one, and it must be the answer the first request got
+                preview = pr.pos_request("textDocument/rename", f, ln, col, {"newName": new}) if rng.random() < 0.3 else None
                 resp = pr.pos_request("textDocument/rename", f, ln, col, {"newName": new})
                 w["response"] = resp
-                if resp.get("busy"):
+                if resp.get("busy") or (preview or {}).get("busy"):
                     acc.inconc("language server still computing after the extended watchdog")
                     break
                 if "dead" in resp or "timeout" in resp:
                     acc.violation("server-died|rename", "no answer: %s" % pr.srv.stderr[-200:].decode("utf8", "replace"), w)
                     break
+                if preview is not None:
+                    acc.count("renames_asked_twice")
+                    norm = lambda r: sorted((u, sorted((L.rng_tuple(e["range"]), e["newText"]) for e in es)) for u, es in ((r.get("result") or {}).get("changes") or {}).items())
+                    if norm(preview) != norm(resp):
+                        acc.violation("rename-answer-changes-when-asked-again|%s" % d.kind, "the same rename request for %s, asked twice without any change in between, got two different answers" % d.name,
+                                      dict(w, first_response=preview))
+                        continue
                 changes = (resp.get("result") or {}).get("changes")
                 if not changes:
                     acc.violation("offered-but-no-edit|%s" % d.kind, "prepareRename offered %s but rename returned nothing" % d.name, w)
